@@ -1,4 +1,11 @@
 import Glas.Props.C11
+import Glas.Props.C11Collect
 #print axioms Glas.Props.C11.apply_history_independent
 #print axioms Glas.Props.C11.content_last_write
 #print axioms Glas.Props.C11.moduleMap_of_root
+#print axioms Glas.Props.C11Collect.collect_spec_ok
+#print axioms Glas.Props.C11Collect.collect_is_unfolding
+#print axioms Glas.Props.C11Collect.order_independent
+#print axioms Glas.Props.C11Collect.collectAll_is_unfolding
+#print axioms Glas.Props.C11Collect.acyclicExample_acyclic
+#print axioms Glas.Props.C10Collect.order_matters
